@@ -22,6 +22,7 @@ class C05(Check):
             "leaves it valid is a boundary neighbour that must be accepted. This is catalogue-driven input mutation; the "
             "simulation only adds position / order / spelling independence. distinct = hash of (sorted injection labels, "
             "model verdict, read kind); non-trivial = at least one injection was applied and lies in the closure of a read")
+    RULE = RULE + "; " + 'rounds 7-8: deprecation rule through 0-4 array levels via the public constructors; untouched definitions rendered with @sealed before the attributes'
     TIERS = {"quick": {"runs": 2400, "budget_s": 50}, "thorough": {"runs": 100000, "budget_s": 900}}
 
     def generate(self, rng: random.Random, r: int, tier: str) -> dict:
